@@ -509,7 +509,7 @@ class Visitor(
 
     @bypass(resolve_source)
     def visit_join(self, source: 'dsl.Join') -> None:
-        if source.condition:
+        if source.condition is not None:
             self.context.tables.filter(source.condition)
         super().visit_join(source)
         right = self.context.symbols.pop()
